@@ -51,7 +51,7 @@ class PoolWorld(World):
     STUB = ["threading.Event/Lock (simulated, baton scheduler)", "time (virtual clock)",
             "sockets + selector (in-memory)", "Worker.__hash__ (index based)", "jobs (scripted durations)"]
     PROBES = ["refused", "worker_retired", "worker_created", "close_with_running_jobs", "preempted",
-              "server_layer", "refused_on_wire", "worker_reused", "close_races_submission", "submit_after_close_refused", "stalled", "silent_client"]
+              "server_layer", "refused_on_wire", "worker_reused", "close_races_submission", "submit_after_close_refused", "stalled", "silent_client", "job_raised"]
     RULE = ("plan = (layer, THREADPOOL_SIZE, THREADPOOL_SIZE_MIN, per job: duration and gap before the next "
             "submission, optional close time, pre-emption probabilities); distinct = distinct interleaving digest "
             "(sequence of thread switches, pre-emption sites and socket events); non-trivial = at least one "
@@ -76,7 +76,7 @@ class PoolWorld(World):
             if layer == "server":
                 dur = rng.choice([0, 0.01, 0.1, 0.5])
                 gap = rng.choice([0, 0, 0.01, 0.1, 0.6])
-            jobs.append({"dur": dur, "gap": gap, "calls": rng.randint(0, 2)})
+            jobs.append({"dur": dur, "gap": gap, "calls": rng.randint(0, 2), "raises": layer == "pool" and rng.random() < 0.15})
         commt = 0.0
         if layer == "server" and rng.random() < 0.35:
             # a configured communication timeout, and clients that connect and then say nothing for a long time: the
@@ -184,9 +184,10 @@ class PoolWorld(World):
         started_after_close = []
 
         class Job:
-            def __init__(s, i, dur):
+            def __init__(s, i, dur, raises=False):
                 s.i = i
                 s.dur = dur
+                s.raises = raises
 
             def __call__(s):
                 ran[s.i] = ran.get(s.i, 0) + 1
@@ -200,6 +201,9 @@ class PoolWorld(World):
                 else:
                     sched.yield_point("job")
                 running[0] -= 1
+                if s.raises:
+                    ctx.probe("job_raised")
+                    raise RuntimeError("job %d failed" % s.i)     # a job that ends with an exception is over, too
 
         status = {}
         sub_now = {}
@@ -223,7 +227,7 @@ class PoolWorld(World):
             sub_now[i] = sched.now
             try:
                 st["in_service"] += 1
-                pool.process(Job(i, j["dur"]))
+                pool.process(Job(i, j["dur"], j.get("raises", False)))
                 status[i] = "accepted"
             except ST.NoFreeWorkersError:
                 st["in_service"] -= 1
